@@ -22,9 +22,15 @@ pub struct Plan {
 fn prog(p: Profile, runs: u64) -> PlanItem {
     PlanItem { scn: Scenario::Program(p), runs, enumerate: false }
 }
+fn scn(s: Scenario, runs: u64) -> PlanItem {
+    PlanItem { scn: s, runs, enumerate: false }
+}
+fn enumerated(s: Scenario, runs: u64) -> PlanItem {
+    PlanItem { scn: s, runs, enumerate: true }
+}
 
 const COMMON_ASSUMPTIONS: [&str; 4] = [
-    "the reference MQTT 5 codec and broker model in /verif/sim (trusted, ~1500 lines) are right",
+    "the reference MQTT 5 codec and broker model in /verif/sim (trusted, ~2000 lines) are right",
     "the transport obeys the embedded-io-async contract (no Ok(0) writes, cancel-safe futures, reliable ordered byte stream per connection)",
     "the embassy time base is monotonic; 1 tick = 1 us",
     "seeded sampling, not proof: a clean batch is evidence only for the explored runs",
@@ -32,18 +38,135 @@ const COMMON_ASSUMPTIONS: [&str; 4] = [
 
 pub fn plan_for(prop: &str, tier: &str) -> Option<Plan> {
     let q = tier == "quick";
-    let k = |quick: u64, thorough: u64| if q { quick } else { thorough };
+    // thorough = the same mix, many more runs
+    let k = |quick: u64| if q { quick * 8 } else { quick * 240 };
     use Profile::*;
+    let mut exhaustive = false;
     let (items, level, rule, nontrivial): (Vec<PlanItem>, &'static str, &'static str, &'static [&'static str]) = match prop {
         "C01" => (
-            vec![prog(General, k(60_000, 3_000_000)), prog(Sessions, k(30_000, 1_500_000)), prog(Inbound, k(30_000, 1_500_000))],
+            vec![prog(General, k(40_000)), prog(Sessions, k(20_000)), prog(Inbound, k(20_000)), prog(Limits, k(10_000))],
             "exploration",
-            "random programs x partial writes x stalls/cancellation x errors x reconnects; every outbound byte parsed by the strict reference decoder; non-trivial = a partial write or a cancellation actually happened; distinct by event-kind trace hash",
+            "random programs over all operations x partial writes (down to 1 byte) x stalls x cancellation at any Pending x transport errors x fresh/resumed reconnects; every byte accepted by write() is parsed per transport by the strict reference decoder, and every offer made while the stream is inside a packet must continue that packet. non-trivial = a partial write or a cancellation actually happened in the run; distinct = event-kind trace hash",
             &["partial_write", "cancel_at_stall", "cancel_at_read_or_timer"],
         ),
+        "C02" => (
+            vec![prog(Qos1, k(50_000)), prog(General, k(20_000)), prog(Sessions, k(15_000)), prog(Aging, k(500))],
+            "exploration",
+            "QoS 1 heavy programs with connection loss at random I/O calls (errors, EOF, drop, forget, cancelled connects), 1..10 resumed reconnects, withheld/reordered/early acks; ledger oracle per message: same id, byte-identical except DUP, DUP set after an earlier complete transmission, once per connection, none after PUBACK, acceptance order. non-trivial = at least one retransmission on a later connection was observed",
+            &["retransmission_seen"],
+        ),
+        "C03" => (
+            vec![prog(Qos2, k(50_000)), prog(General, k(20_000)), prog(Quota, k(10_000)), prog(Aging, k(500))],
+            "exploration",
+            "1..8 concurrent QoS 2 exchanges, all PUBREC/PUBCOMP orders, failure codes, crashes between the four steps, repeated resumes; per-exchange state machine oracle incl. PUBREL replay order = PUBREC arrival order. non-trivial = a PUBREL was replayed on a later connection or a PUBLISH retransmitted",
+            &["pubrel_replayed", "retransmission_seen"],
+        ),
+        "C04" => (
+            vec![prog(Inbound, k(60_000)), prog(General, k(20_000)), prog(Limits, k(10_000))],
+            "exploration",
+            "broker publishes at QoS 0/1/2 within the client's Receive Maximum/Maximum Packet Size with random legal property sets and payloads up to the receive buffer, DUP retransmissions, duplicate/unknown PUBREL, across resumed and fresh reconnects, interleaved with outbound load; oracle: deliveries equal what was sent, in order; acks in arrival order with the right reason. non-trivial = a DUP/duplicate inbound packet was consumed or an inbound message filled the receive buffer",
+            &["inbound_dup_consumed", "inbound_qos2_duplicate_suppressed", "inbound_fills_rx_buffer", "pubrel_for_unknown_id"],
+        ),
+        "C05" => (
+            vec![prog(Sessions, k(50_000)), prog(General, k(20_000)), prog(Qos1, k(10_000)), prog(Qos2, k(10_000))],
+            "exploration",
+            "up to 12 connections with arbitrary session-present answers, rejected/garbled/cancelled handshakes in between and arbitrary in-flight state at each loss; oracle: clean-start and client id of every CONNECT, connect_event, nothing stale after a fresh session, everything unacknowledged replayed once before any new identifier-bearing packet, old handles invalidated. non-trivial = a session was resumed with requests in flight or a fresh session replaced one",
+            &["resumed_with_inflight", "fresh_session"],
+        ),
+        "C06" => (
+            vec![prog(Quota, k(60_000)), prog(Qos2, k(15_000)), prog(General, k(15_000))],
+            "exploration",
+            "Receive Maximum 1,2,3,7,8,9,65535 changing across connections, QoS 1/2 mixes, withheld and failing acks, cancelled publishes, resumed reconnects; counting invariant at every outbound QoS>0 PUBLISH. non-trivial = the window was exactly full at least once",
+            &["quota_window_full"],
+        ),
+        "C07" => (
+            vec![prog(IdWrap, k(70_000)), prog(General, k(20_000))],
+            "exploration",
+            "long-lived in-flight operations (acks withheld) while the identifier counter is moved almost a full 16-bit cycle through the verif hook (which calls the real allocator), or starts next to the wrap; oracle: every new identifier is non-zero and unused by any unresolved operation. non-trivial = the counter wrapped with operations in flight",
+            &["identifier_counter_wrapped_with_ops_in_flight", "identifier_counter_advanced"],
+        ),
+        "C09" => (
+            vec![prog(General, k(35_000)), prog(Limits, k(20_000)), prog(Sessions, k(15_000)), prog(Aging, k(500))],
+            "exploration",
+            "swarm over will/auth/keep-alive/expiry/client-id configurations, publish property sets incl. correlation data, subscription options, payload sizes across remaining-length boundaries, over many connections; every outbound packet (first transmission and replay, every CONNECT of every history) is decoded by the reference codec and compared with the request. every run is non-trivial (>= 1 CONNECT compared)",
+            &[],
+        ),
+        "C10" => (
+            vec![prog(Timing, k(60_000))],
+            "exploration",
+            "virtual clock, keep-alive from {0,1,2,3,4,5,9,10,11,30,65535,1..70} with/without Server Keep Alive, application waits in poll() continuously, zero-time writes; traffic and PINGRESP at random delays up to 200 s or never; oracle on completion timestamps. non-trivial = at least one PINGREQ was sent or a keep-alive timeout occurred",
+            &["pingreq", "keepalive_timeout_disconnect"],
+        ),
+        "C11" => (
+            vec![prog(General, k(40_000)), prog(Sessions, k(20_000)), prog(Inbound, k(20_000)), enumerated(Scenario::FaultEnum(0), k(4_000))],
+            "fault_enumeration",
+            "random programs in which every fatal result is followed by a random sequence of further operations on the same handle, plus the enumeration FaultEnum(0): for prepared pre-states x operation, the fault-free run is recorded and then every fault kind is injected at every I/O call index. oracle: is_connected/can_publish false, every operation Disconnected (disconnect Ok), I/O counters frozen. non-trivial = a dead-handle probe ran",
+            &["dead_handle_probe"],
+        ),
+        "C12" => (
+            vec![prog(General, k(30_000)), prog(Sessions, k(30_000)), prog(Limits, k(10_000)), enumerated(Scenario::FaultEnum(1), k(4_000))],
+            "fault_enumeration",
+            "every explored history ends with connect() over a healthy transport to a conformant broker; FaultEnum(1) cuts prepared scenarios at every I/O call (error, cancel, drop, forget, inside the handshake) first. oracle: connect Ok, first packet a complete CONNECT, QoS 1 probe completes, inbound probe delivered. non-trivial = the final reconnect was attempted after a fault",
+            &["final_reconnect_ok"],
+        ),
+        "C13" => (
+            vec![scn(Scenario::CancelTwin, k(60_000))],
+            "exploration",
+            "twin runs: a base script and the same script with cancellations (0..5 per operation, after any number of accepted bytes) followed by poll(); outbound packet sequence and deliveries must be equal after removing requests that were not accepted. non-trivial = the twin really cancelled something after bytes had moved",
+            &["twin_cancelled"],
+        ),
+        "C14" => (
+            vec![prog(Limits, k(70_000)), prog(General, k(15_000))],
+            "exploration",
+            "broker Maximum Packet Size from {2,4,5,6,7,9,16,24,40,64,200,2000}, request sizes around the limit, tiny limits with acks owed, retained packets replayed under a smaller limit, receive buffers 8..4096 with inbound packets up to exactly the buffer size. non-trivial = a request was refused as too large, sent exactly at the limit, or an ack did not fit",
+            &["refused_packet_too_large", "outbound_exactly_at_max", "closed_because_ack_too_large"],
+        ),
+        "C15" => (
+            vec![enumerated(Scenario::FragTwin(0), k(3_000)), scn(Scenario::FragTwin(1), k(30_000))],
+            "fault_enumeration",
+            "FragTwin(0): all 2^(n-1) chunkings of short inbound streams (enumerated); FragTwin(1): random chunkings and partial-write patterns of long scripts; delivered messages, operation results and outbound bytes must equal the unfragmented run",
+            &["twin_fragmented"],
+        ),
+        "C16" => (
+            vec![prog(General, k(25_000)), prog(Qos1, k(10_000)), prog(Qos2, k(10_000)), prog(Inbound, k(10_000)), prog(Sessions, k(10_000)), prog(Quota, k(8_000)), prog(Limits, k(8_000)), prog(IdWrap, k(5_000))],
+            "exploration",
+            "after every explored run all faults are switched off, the broker answers promptly, and poll() is repeated (reconnecting with the session present if needed); bounds 4P+16 returns and (P+2)x(tx+rx) bytes; every accepted operation complete, nothing owed, publish-quiescent; watchdogs on I/O calls, clock reads and polls without time advance. non-trivial = the drain started with P > 0",
+            &["drain_with_pending"],
+        ),
+        "C17" => (
+            vec![scn(Scenario::AgeTwin, k(1_500)), prog(Aging, k(600))],
+            "exploration",
+            "ageing runs of up to 2000 operations (payloads empty to arena-filling, all ack orders, QoS 0 and reconnects in between) over arenas 16..4096; every retransmission equals the first transmission except DUP; AgeTwin: after everything is acknowledged a probe battery gives the same accept/refuse answers as on a brand-new session",
+            &["aged_probe_battery", "retransmission_seen"],
+        ),
+        "C18" => (
+            vec![prog(General, k(40_000)), prog(Qos1, k(15_000)), prog(Qos2, k(15_000)), prog(Sessions, k(20_000))],
+            "exploration",
+            "status of every handle ever issued is compared with the ledger after every operation (pending/complete/invalidated), failing reason codes must surface as Rejected(code) from the poll that consumed them. non-trivial = a failing acknowledgement or a fresh session occurred",
+            &["fresh_session", "ack_failure_code"],
+        ),
+        "C19" => (
+            vec![prog(Invalid, k(60_000)), prog(Limits, k(15_000)), enumerated(Scenario::Table, k(2_000))],
+            "fault_enumeration",
+            "27 property kinds x {publish, subscribe, unsubscribe, disconnect, will} x boundary values: the will column is enumerated in every Invalid run, Table enumerates the rest in random session states; random programs issue invalid requests at random points and check that nothing of them reaches the wire and that quiescence/can_publish/handles are unchanged; Maximum QoS x requested QoS x downgrade. non-trivial = an invalid-request probe was evaluated",
+            &["invalid_probe_evaluated", "will_table_entry"],
+        ),
+        "C08" => {
+            exhaustive = !q;
+            (
+                vec![enumerated(Scenario::Bytes(0), if q { 65_536 + 256 } else { 16_843_008 }), scn(Scenario::Bytes(1), k(60_000)), enumerated(Scenario::Bytes(2), 12_000)],
+                "fault_enumeration",
+                "Bytes(0): every byte string of length <= 2 (quick) / <= 3 (thorough) fed through the transport before and after CONNACK; Bytes(2): every first byte x length-field forms x shorter/exact/longer body; Bytes(1): valid server packets of every type with random legal property sets, then mutated; oracle = reference classifier (valid => accepted with the values sent; listed malformations => invalid-packet error, dead handle, nothing acted upon, reconnect works; malformation inside a property block => left open; panic => violation)",
+                &["bytes_case"],
+            )
+        }
         _ => return None,
     };
-    Some(Plan { items, level, rule, nontrivial, exhaustive: false, assumptions: COMMON_ASSUMPTIONS.to_vec() })
+    let items: Vec<PlanItem> = items.into_iter().filter(|i| matches!(i.scn, Scenario::Program(_)) || crate::scen::implemented(i.scn)).collect();
+    if items.is_empty() {
+        return None;
+    }
+    Some(Plan { items, level, rule, nontrivial, exhaustive, assumptions: COMMON_ASSUMPTIONS.to_vec() })
 }
 
 pub fn all_scenarios() -> Vec<Scenario> {
